@@ -1115,6 +1115,10 @@ func main() {
 		}
 		t0 = time.Now()
 	}
+	if os.Getenv("C08_ONLY") == "chat" {
+		chatCases(o)
+		return
+	}
 	if os.Getenv("C08_ONLY") == "oom" { // development aid: the child-process stream alone
 		oomCases(o)
 		return
@@ -1125,6 +1129,8 @@ func main() {
 	lap("json")
 	tagsCases(o)
 	lap("tags")
+	chatCases(o)
+	lap("chat")
 	skeletonCases(o)
 	lap("skeleton")
 	utagsCases(o)
